@@ -32,7 +32,7 @@ _SCHED_ASSUME = [
 PROPS = {
     "C01": {
         "level": "exploration",
-        "parts": [{"engine": "sched", "profile": "c01", "weight": 4}, {"engine": "integ", "profile": "c06", "weight": 1}, {"engine": "fault", "profile": "c13", "weight": 1}],
+        "parts": [{"engine": "sched", "profile": "c01", "weight": 4}, {"engine": "integ", "profile": "c06", "weight": 1}, {"engine": "fault", "profile": "c13", "weight": 1}, {"engine": "fault", "profile": "c08", "weight": 1}],
         "rule": "worlds: every DAG shape on 1..4 stages by index (x declaration order, outcomes, allow_failure, conditions, nested pipeline drawn per world), random DAGs beyond (a nested pipeline reuses the stage names of the pipeline around it in a third of the cases; every 16th world has 8..12 stages that each nest a pipeline, every 16th one pipeline nested by two stages with likely failures inside); each world under 4 seeded schedules (which parked stage goroutine / Run call proceeds next, passes in between; in a third of the worlds a stage goroutine whose task just returned may be held before one of its next 12 statements - e.g. between its two status stores - while scheduling passes go on). distinct = canonical event-log hash (timestamps removed, events of one quiescence sorted); non-trivial = at least two stage tasks in flight together at some point. INTEG part (real TaskRunner over simulated processes, the C06 pipeline worlds): no command of a stage starts before every command of each dependency has ended; also in the C13 timeout worlds (dependant of a task whose command overruns its timeout and ignores the interrupt until killed)",
         "assumptions": _SCHED_ASSUME,
     },
